@@ -45,6 +45,13 @@ func TestVerifC05b(t *testing.T) {
 	c08test(t, false)
 }
 
+// TestVerifC05c is the same completeness clause under the cooperative scheduler: activation, the metadata watcher
+// and the arrival of entries interleave at the instrumented points (an entry can arrive in the middle of an activation).
+func TestVerifC05c(t *testing.T) {
+	c08property = "C05"
+	c08test(t, true)
+}
+
 var c08property = "C08"
 
 func TestVerifC08C(t *testing.T) { c08test(t, true) }
